@@ -130,12 +130,16 @@ Section Thm.
   Inductive reach (s0 : state) : state -> Prop :=
   | reach_refl : reach s0 s0
   | reach_ok s1 fuel o s2 : reach s0 s1 -> run_op E cf fuel o s1 = Ok s2 -> reach s0 s2
-  | reach_err s1 fuel o e s2 : reach s0 s1 -> run_op E cf fuel o s1 = Err e s2 -> reach s0 s2.
+  | reach_err s1 fuel o e s2 : reach s0 s1 -> run_op E cf fuel o s1 = Err e s2 -> reach s0 s2
+  (* a foreign call (run_simplex, run_ls_trf, status tables, views of the merit function, direct
+     assignments by the user ...): anything may change except the rows already logged; the rows such
+     calls append are appended by tag() *)
+  | reach_havoc s1 s2 : reach s0 s1 -> log s2 = log s1 -> reach s0 s2.
 
   Lemma rows_truthful k0 va0 s0 s :
     init E cf k0 va0 = Ok s0 -> reach s0 s -> Forall truthful (log s).
   Proof.
-    intros Hi Hr. induction Hr as [|s1 fuel o s2 Hr IH Ho|s1 fuel o e s2 Hr IH Ho].
+    intros Hi Hr. induction Hr as [|s1 fuel o s2 Hr IH Ho|s1 fuel o e s2 Hr IH Ho|s1 s2 Hr IHHr H].
     - unfold init in Hi. pose proof (add_point_spec E cf 0%N (pre_init E cf k0 va0)) as P.
       destruct (c_check cf).
       + rewrite Hi in P. cbn in P.
@@ -147,6 +151,27 @@ Section Thm.
         rewrite L2. stsimpl. rewrite L. cbn. auto.
     - pose proof (op_rows_truthful fuel o s1 IH) as P. rewrite Ho in P. exact P.
     - pose proof (op_rows_truthful fuel o s1 IH) as P. rewrite Ho in P. exact P.
+    - rewrite H. exact IHHr.
+  Qed.
+
+  (* the row add_point_to_log writes is a function of the container values and the
+     active flags only: no other field of the state (solver x, masks, last-evaluation
+     fields, counters, earlier rows) influences it *)
+  Lemma add_point_frame tg s1 s2 :
+    knobs s1 = knobs s2 -> va s1 = va s2 -> ta s1 = ta s2 ->
+    match add_point E cf tg s1, add_point E cf tg s2 with
+    | Ok a, Ok b => exists r, log a = log s1 ++ [r] /\ log b = log s2 ++ [r] /\ knobs a = knobs b
+    | Err e1 a, Err e2 b => e1 = e2 /\ knobs a = knobs b /\ log a = log s1 /\ log b = log s2
+    | Div, Div => True
+    | _, _ => False
+    end.
+  Proof.
+    intros K V T. unfold add_point, solver_eval, merit_call. rewrite <- K, <- V, <- T.
+    destruct (write_knobs E (c_check cf) (va s1) (c_lim cf) (x_to_knobs E cf (knobs_to_x E cf (knobs s1))) (knobs s1)) as [k' e].
+    destruct e; [cbn; auto|].
+    destruct (e_f E k') as [r|]; [|cbn; auto].
+    destruct (log_bad E (ta s1) (c_tlog cf) r (c_tval cf)); cbn; [auto|].
+    eexists. stsimpl. split; [reflexivity|]. split; [rewrite V, T; reflexivity|reflexivity].
   Qed.
 
   Lemma truthful_unit r :
